@@ -84,6 +84,11 @@ def _fixture_path():
     return os.path.join(paths.FIXTURES, "C04", "components_unsorted.bcif")
 
 
+def _alt_fixture_path():
+    from common import paths
+    return os.path.join(paths.FIXTURES, "C04", "components_alt.bcif")
+
+
 def _setup():
     """Install the synthetic CCD (once per process, before any info function caches a lookup)."""
     if _state["ready"]:
@@ -113,6 +118,20 @@ def _setup():
         f["components"] = blk
         os.makedirs(os.path.dirname(path), exist_ok=True)
         f.write(path)
+    alt = _alt_fixture_path()
+    if not os.path.exists(alt):
+        # the same dictionary with FOO changed: all bonds SINGLE, peptide linking
+        from biotite.structure.io.pdbx.bcif import BinaryCIFFile
+        f = BinaryCIFFile.read(path)
+        cb = f.block["chem_comp_bond"]
+        vo = cb["value_order"].as_array(str).copy()
+        vo[cb["comp_id"].as_array(str) == "FOO"] = "SING"
+        cb["value_order"] = vo
+        cc = f.block["chem_comp"]
+        ty = cc["type"].as_array(str).astype("U40").copy()
+        ty[cc["id"].as_array(str) == "FOO"] = "L-PEPTIDE LINKING"
+        cc["type"] = ty
+        f.write(alt)
     info.set_ccd_path(path)
     _state["ready"] = True
 
@@ -945,8 +964,10 @@ def cases(rng, tier):
     n = 400 if tier == "quick" else 5000
     for k in range(n):
         r = rng.random()
-        if r < 0.40:
+        if r < 0.34:
             yield _struct_case(rng, gen_spec(rng, "valid"))
+        elif r < 0.40:
+            yield gen_api_case(rng)
         elif r < 0.56:
             yield _struct_case(rng, weirdify(rng, gen_spec(rng, "valid")), "struct-strings")
         elif r < 0.62:
@@ -1256,6 +1277,17 @@ def _keys_arrays(keys):
 
 
 def run_impl(case):
+    from common import sandbox
+    _setup()
+    res = sandbox.run_forked(_run_impl_inner, case, timeout=120)
+    if res[0] == "ok":
+        return res[1]
+    if res[0] == "err":
+        return [f"UNCAUGHT:{res[1]}:{res[2][:100]}"]
+    return ["CRASH"] * len(case["ops"])
+
+
+def _run_impl_inner(case):
     import warnings
     import numpy as np
     _setup()
@@ -1349,6 +1381,310 @@ def run_impl(case):
     return out
 
 
+# ------------------------------------------------------------------ hardening: public API used like a caller would
+def _small_spec(rng):
+    sp = gen_spec(rng, "valid")
+    for _ in range(60):
+        if len(sp["atoms"]) <= 14:
+            break
+        sp = gen_spec(rng, "valid")
+    return sp
+
+
+def gen_api_case(rng):
+    """Two small well-formed structures A and B for the API history checks (oracle only): one file object reused,
+    refused calls, the same arguments in other spellings, arguments forwarded through the layers, ambient state."""
+    a, b = _small_spec(rng), _small_spec(rng)
+    if rng.random() < 0.4:
+        b["bonds"] = None
+    if rng.random() < 0.5:
+        b["box"] = None
+    return {"kind": "api", "ops": [], "spec": a, "spec_b": b, "pick": rng.randint(0, 10 ** 6)}
+
+
+def _file_bytes(f):
+    buf = io.StringIO() if type(f).__name__ == "CIFFile" else io.BytesIO()
+    f.write(buf)
+    return buf.getvalue()
+
+
+def _reread(f):
+    from biotite.structure.io import pdbx
+    data = _file_bytes(f)
+    if isinstance(data, str):
+        return pdbx.CIFFile.read(io.StringIO(data))
+    return pdbx.BinaryCIFFile.read(io.BytesIO(data))
+
+
+def _read_kw(spec):
+    return {"model": None if spec["stack"] else 1, "extra_fields": _extra_fields(spec), "include_bonds": spec.get("bonds") is not None}
+
+
+def _pref(viol, prefix):
+    return [(k.replace("C04/", f"C04/api/{prefix}/", 1), f"[{prefix}] " + m) for k, m in viol]
+
+
+def _oracle_api(case):
+    import warnings
+    import numpy as np
+    _setup()
+    import biotite.structure as struc
+    import biotite.structure.info as info
+    from biotite.structure.io import pdbx
+    from biotite.structure.io.pdbx.bcif import BinaryCIFBlock, BinaryCIFFile
+    sa, sb = case["spec"], case["spec_b"]
+    v = []
+    with warnings.catch_warnings():
+        warnings.simplefilter("ignore")
+        A, B = build_array(sa), build_array(sb)
+        mA = len(sa["coords"])
+        files = ((pdbx.CIFFile, "cif"), (pdbx.BinaryCIFFile, "bcif"))
+
+        def put(f, arr, sp, **kw):
+            pdbx.set_structure(f, arr, include_bonds=arr.bonds is not None, extra_fields=sorted(sp.get("extra") or {}), **kw)
+
+        # ---- 1. one file object reused: A, B (other size / no bonds / no box), A again
+        for File, fmt in files:
+            f = File()
+            for step, (arr, sp) in enumerate(((A, sa), (B, sb), (A, sa))):
+                try:
+                    put(f, arr, sp)
+                    direct1 = pdbx.get_structure(f, **_read_kw(sp))
+                    direct2 = pdbx.get_structure(f, **_read_kw(sp))       # a second read of the same object
+                    back = pdbx.get_structure(_reread(f), **_read_kw(sp))
+                    count = pdbx.get_model_count(f)
+                except Exception as e:  # noqa: BLE001
+                    v.append((f"C04/api/reuse-file/error/{type(e).__name__}", f"{fmt} step {step}: {type(e).__name__}: {str(e)[:120]}"))
+                    break
+                for got in (direct1, direct2, back):
+                    v += _pref(_compare(sp, arr, got, fmt, sp["stack"], "reuse"), f"reuse-file-step{step}")
+                if count != len(sp["coords"]):
+                    v.append(("C04/api/get_model_count", f"{fmt} step {step}: get_model_count = {count}, {len(sp['coords'])} models written"))
+
+        # ---- 2. a refused call changes nothing
+        for File, fmt in files:
+            f = File()
+            put(f, A, sa)
+            snap = _file_bytes(f)
+            n = A.array_length()
+            bad = [("empty", lambda: pdbx.set_structure(f, struc.AtomArray(0))),
+                   ("not-a-structure", lambda: pdbx.set_structure(f, "abc")),
+                   ("reserved-extra-field", lambda: pdbx.set_structure(f, A, extra_fields=["res_id"])),
+                   ("missing-extra-field", lambda: pdbx.set_structure(f, A, extra_fields=["no_such_annotation"]))]
+            if n >= 2:
+                def empty_name():
+                    c = A.copy()
+                    c.atom_name[n - 1] = ""
+                    c.bonds = struc.BondList(n, np.array([[0, n - 1, 1]]))
+                    pdbx.set_structure(f, c, include_bonds=True)
+
+                def bad_type():
+                    c = A.copy()
+                    c.bonds = struc.BondList(n, np.array([[0, n - 1, 12]]))
+                    pdbx.set_structure(f, c, include_bonds=True)
+                bad += [("empty-atom-name", empty_name), ("bond-type-12", bad_type)]
+            before_A = A.copy()
+            for name, call in bad:
+                try:
+                    call()
+                    v.append((f"C04/api/refused-call/set_structure/{name}/accepted", f"{fmt}: set_structure accepted {name}"))
+                    put(f, A, sa)
+                    snap = _file_bytes(f)
+                    continue
+                except Exception:  # noqa: BLE001
+                    pass
+                if _file_bytes(f) != snap:
+                    v.append((f"C04/api/refused-call/set_structure/{name}/file-changed",
+                              f"{fmt}: the file changed although set_structure raised for {name}; categories now {list(f.block.keys())}"))
+                    f = File()
+                    put(f, A, sa)
+                    snap = _file_bytes(f)
+            f0 = File()
+            try:
+                pdbx.set_structure(f0, A, extra_fields=["res_id"])
+            except Exception:  # noqa: BLE001
+                pass
+            if list(f0.keys()) != []:
+                v.append(("C04/api/refused-call/set_structure/empty-file-gets-block", f"{fmt}: blocks {list(f0.keys())} after a refused call on an empty file"))
+            if A != before_A:
+                v.append(("C04/api/refused-call/set_structure/array-changed", f"{fmt}: the structure changed"))
+            fields = _extra_fields(sa)
+            fields0 = list(fields)
+            for name, kw in (("model-0", {"model": 0}), ("model-too-large", {"model": mA + 1}), ("model-too-negative", {"model": -mA - 1}),
+                             ("altloc-bogus", {"altloc": "bogus"}), ("unknown-block", {"data_block": "no_such_block"}),
+                             ("unknown-extra-field", {"extra_fields": fields + ["no_such_column"]})):
+                kw2 = dict({"model": 1, "extra_fields": fields}, **kw)
+                try:
+                    pdbx.get_structure(f, **kw2)
+                    v.append((f"C04/api/refused-call/get_structure/{name}/accepted", f"{fmt}: get_structure accepted {name}"))
+                except Exception:  # noqa: BLE001
+                    pass
+                if _file_bytes(f) != snap or fields != fields0:
+                    v.append((f"C04/api/refused-call/get_structure/{name}/changed", f"{fmt}: file or extra_fields changed by a refused get_structure"))
+                    fields[:] = fields0
+            v += _pref(_compare(sa, A, pdbx.get_structure(f, **_read_kw(sa)), fmt, sa["stack"], "after"), "after-refused-calls")
+
+        # ---- 3. the same value in another spelling
+        g = pdbx.BinaryCIFFile()
+        put(g, A, sa)
+        kw = _read_kw(sa)
+        for k in sorted({1, mA}):
+            ref = pdbx.get_structure(g, **dict(kw, model=k))
+            for T in (np.int8, np.int16, np.int32, np.int64, np.uint8, np.uint16, np.uint32, np.uint64):
+                for val in ((k, k - mA - 1) if T(0).dtype.kind == "i" else (k,)):
+                    try:
+                        got = pdbx.get_structure(g, **dict(kw, model=T(val)))
+                        if got != ref:
+                            v.append((f"C04/api/spelling/model-{T.__name__}", f"model={T.__name__}({val}) of {mA} differs from model={k}"))
+                    except Exception as e:  # noqa: BLE001
+                        v.append((f"C04/api/spelling/model-{T.__name__}/error", f"model={T.__name__}({val}) of {mA}: {type(e).__name__}: {str(e)[:80]}"))
+        ref = pdbx.get_structure(g, **kw)
+        fl = kw["extra_fields"]
+        for name, kw2 in (("extra_fields-tuple", {"extra_fields": tuple(fl)}), ("extra_fields-set", {"extra_fields": set(fl)}),
+                          ("extra_fields-ndarray", {"extra_fields": np.array(fl, dtype=str) if fl else np.array([], dtype="U1")}),
+                          ("include_bonds-np.bool_", {"include_bonds": np.bool_(kw["include_bonds"])}),
+                          ("altloc-np.str_", {"altloc": np.str_("first")}),
+                          ("use_author_fields-False", {"use_author_fields": False})):
+            try:
+                got = pdbx.get_structure(g, **dict(kw, **kw2))
+                if got != ref:
+                    v.append((f"C04/api/spelling/{name}", f"get_structure({name}) differs from the plain call"))
+            except Exception as e:  # noqa: BLE001
+                v.append((f"C04/api/spelling/{name}/error", f"{type(e).__name__}: {str(e)[:100]}"))
+        variants = []
+
+        def variant(name, fn):
+            c = A.copy()
+            try:
+                fn(c)
+            except Exception:  # noqa: BLE001
+                return
+            variants.append((name, c))
+
+        def ro(x):
+            x = x.copy()
+            x.setflags(write=False)
+            return x
+
+        def strided(x):
+            big = np.zeros(x.shape[:-1] + (2 * x.shape[-1],), dtype=x.dtype)
+            big[..., ::2] = x
+            return big[..., ::2]
+        variant("res_id-int16", lambda c: setattr(c, "res_id", A.res_id.astype(np.int16)) if np.abs(A.res_id).max() < 32000 else 1 / 0)
+        variant("res_id-int32", lambda c: setattr(c, "res_id", A.res_id.astype(np.int32)))
+        variant("res_id-big-endian", lambda c: setattr(c, "res_id", A.res_id.astype(">i8")))
+        variant("res_id-read-only", lambda c: c.set_annotation("res_id", ro(A.res_id)))
+        variant("res_id-strided", lambda c: c.set_annotation("res_id", strided(A.res_id)))
+        variant("names-read-only", lambda c: [c.set_annotation(x, ro(A.get_annotation(x))) for x in ("atom_name", "res_name", "chain_id", "ins_code", "element", "hetero")])
+        variant("coord-float64", lambda c: setattr(c, "coord", A.coord.astype(np.float64)))
+        variant("coord-big-endian", lambda c: setattr(c, "_coord", A.coord.astype(">f4")))
+        variant("coord-read-only", lambda c: setattr(c, "_coord", ro(A.coord)))
+        variant("coord-strided", lambda c: setattr(c, "_coord", strided(A.coord)))
+        variant("coord-fortran", lambda c: setattr(c, "_coord", np.asfortranarray(A.coord)))
+        if A.box is not None:
+            variant("box-float64", lambda c: setattr(c, "box", A.box.astype(np.float64)))
+            variant("box-read-only", lambda c: setattr(c, "_box", ro(A.box)))
+        if "charge" in A.get_annotation_categories() and np.abs(A.charge).max() < 127:
+            variant("charge-int8", lambda c: c.set_annotation("charge", A.charge.astype(np.int8)))
+        if "atom_id" in A.get_annotation_categories() and A.atom_id.min() >= 0:
+            variant("atom_id-uint32", lambda c: c.set_annotation("atom_id", A.atom_id.astype(np.uint32)))
+        for fcat in ("b_factor", "occupancy"):
+            if fcat in A.get_annotation_categories():
+                variant(f"{fcat}-float32", lambda c, fcat=fcat: c.set_annotation(fcat, A.get_annotation(fcat).astype(np.float32)))
+                variant(f"{fcat}-read-only", lambda c, fcat=fcat: c.set_annotation(fcat, ro(A.get_annotation(fcat))))
+        if A.bonds is not None and A.bonds.get_bond_count() > 0:
+            variant("bonds-int32-array", lambda c: setattr(c, "bonds", struc.BondList(A.array_length(), A.bonds.as_array().astype(np.int32))))
+            variant("bonds-reversed-rows", lambda c: setattr(c, "bonds", struc.BondList(A.array_length(), A.bonds.as_array()[::-1][:, [1, 0, 2]])))
+        for idx, (name, c) in enumerate(variants):
+            fmt = FORMATS[(idx + case.get("pick", 0)) % 3]
+            try:
+                back = _roundtrip(c, fmt, sa, model=None if sa["stack"] else 1)
+            except Aliased as e:
+                v.append((f"C04/api/spelling/{name}/aliasing", f"{fmt}: column {e} follows the structure"))
+                continue
+            except Exception as e:  # noqa: BLE001
+                v.append((f"C04/api/spelling/{name}/error/{type(e).__name__}", f"{fmt}: {name}: {type(e).__name__}: {str(e)[:100]}"))
+                continue
+            v += _pref(_compare(sa, c, back, fmt, sa["stack"], "spelling"), f"spelling/{name}")
+
+        # ---- 4. arguments forwarded through the layers, defaults, ambient state
+        for File, fmt in files:
+            f = File()
+            try:
+                put(f, B, sb, data_block="other")
+                put(f, A, sa, data_block="mine")
+                if list(f.keys()) != ["other", "mine"]:
+                    v.append(("C04/api/data_block/keys", f"{fmt}: blocks {list(f.keys())}"))
+                for h in (f, _reread(f)):
+                    v += _pref(_compare(sa, A, pdbx.get_structure(h, data_block="mine", **_read_kw(sa)), fmt, sa["stack"], "blk"), "data_block-explicit")
+                    v += _pref(_compare(sb, B, pdbx.get_structure(h, data_block="other", **_read_kw(sb)), fmt, sb["stack"], "blk"), "data_block-other")
+                    v += _pref(_compare(sb, B, pdbx.get_structure(h, **_read_kw(sb)), fmt, sb["stack"], "blk"), "data_block-default-first")
+                    if pdbx.get_model_count(h, data_block="mine") != mA or pdbx.get_model_count(h) != len(sb["coords"]):
+                        v.append(("C04/api/data_block/get_model_count", f"{fmt}: model counts of the two blocks mixed up"))
+                    v += _pref(_compare(sa, A, pdbx.get_structure(h["mine"], **_read_kw(sa)), fmt, sa["stack"], "blk"), "block-object-read")
+                blk = File.subcomponent_class()()
+                put(blk, A, sa)
+                v += _pref(_compare(sa, A, pdbx.get_structure(blk, **_read_kw(sa)), fmt, sa["stack"], "blk"), "block-object-write")
+            except Exception as e:  # noqa: BLE001
+                v.append((f"C04/api/data_block/error/{type(e).__name__}", f"{fmt}: {type(e).__name__}: {str(e)[:120]}"))
+        # compress(): the tolerance must arrive at every level
+        g = pdbx.BinaryCIFFile()
+        put(g, A, sa)
+        for tol in (1e-6, 1e-2):
+            try:
+                whole = pdbx.compress(g, float_tolerance=tol)
+                by_block, by_cat, by_col = BinaryCIFFile(), BinaryCIFFile(), BinaryCIFFile()
+                for bname, blk in g.items():
+                    by_block[bname] = pdbx.compress(blk, float_tolerance=tol)
+                    nb, nc = BinaryCIFBlock(), BinaryCIFBlock()
+                    for cname, cat in blk.items():
+                        nb[cname] = pdbx.compress(cat, float_tolerance=tol)
+                        ncat = type(cat)()
+                        for col, column in cat.items():
+                            ncat[col] = pdbx.compress(column, float_tolerance=tol)
+                        nc[cname] = ncat
+                    by_cat[bname], by_col[bname] = nb, nc
+                ref_bytes = _file_bytes(whole)
+                for lvl, other in (("block", by_block), ("category", by_cat), ("column", by_col)):
+                    if _file_bytes(other) != ref_bytes:
+                        v.append((f"C04/api/compress/float_tolerance-not-forwarded/{lvl}", f"compress(file, float_tolerance={tol}) differs from compressing every {lvl} with that tolerance"))
+                back = pdbx.get_structure(_reread(whole), **_read_kw(sa))
+                ca, cb = np.asarray(A.coord, dtype=np.float64), np.asarray(back.coord, dtype=np.float64)
+                if ca.shape != cb.shape or not np.all(np.abs(ca - cb) <= tol * 1.01 * np.abs(ca) + 1e-30):
+                    v.append(("C04/api/compress/out-of-tolerance", f"float_tolerance={tol}: coordinates off by more than the tolerance"))
+            except Exception as e:  # noqa: BLE001
+                v.append((f"C04/api/compress/error/{type(e).__name__}", f"float_tolerance={tol}: {type(e).__name__}: {str(e)[:120]}"))
+        # ambient state: the component dictionary is changed between two reads of one file
+        if ccd_fallback_ok(sa):
+            try:
+                h = pdbx.BinaryCIFFile()
+                pdbx.set_structure(h, A, include_bonds=False)
+                r1 = pdbx.get_structure(h, model=1, include_bonds=True).bonds
+                info.set_ccd_path(_alt_fixture_path())
+                r2 = pdbx.get_structure(h, model=1, include_bonds=True).bonds
+                info.set_ccd_path(_fixture_path())
+                r3 = pdbx.get_structure(h, model=1, include_bonds=True).bonds
+                if r3 != r1:
+                    v.append(("C04/api/ccd-switch/not-restored", "bonds differ after switching the dictionary away and back"))
+                st = res_starts(sa["atoms"])
+                foo_multi = False
+                for i, j, t in sa["bonds"]:
+                    ri = max(r for r in range(len(st) - 1) if st[r] <= i)
+                    rj = max(r for r in range(len(st) - 1) if st[r] <= j)
+                    if ri == rj and sa["atoms"][i][3] == "FOO" and t in (2, 3):
+                        foo_multi = True
+                want = {(min(i, j), max(i, j)): (1 if (sa["atoms"][i][3] == "FOO" and sa["atoms"][j][3] == "FOO" and t in (2, 3) and tuple(sa["atoms"][i][:4]) == tuple(sa["atoms"][j][:4])) else t)
+                        for i, j, t in sa["bonds"]}
+                got = {(int(b[0]), int(b[1])): int(b[2]) for b in r2.as_array()}
+                if foo_multi and got != want:
+                    v.append(("C04/api/ccd-switch/stale-dictionary", "after set_ccd_path() to a dictionary with other FOO bonds the old bonds are still returned"))
+            except Exception as e:  # noqa: BLE001
+                v.append((f"C04/api/ccd-switch/error/{type(e).__name__}", f"{type(e).__name__}: {str(e)[:120]}"))
+            finally:
+                info.set_ccd_path(_fixture_path())
+    return v
+
+
 # ------------------------------------------------------------------ property oracle (independent of the model)
 FORMATS = ("cif", "bcif", "cbcif")
 
@@ -1371,10 +1707,12 @@ def _alias_check(f, arr, fmt):
         return snap
     before = snapshot()
     backup = {"coord": arr.coord.copy(), "box": None if arr.box is None else arr.box.copy()}
-    arr.coord[...] = arr.coord * np.float32(-3.0) + np.float32(11.5)
-    if arr.box is not None:
+    move_coord = arr.coord.flags.writeable
+    if move_coord:
+        arr.coord[...] = arr.coord * np.float32(-3.0) + np.float32(11.5)
+    if arr.box is not None and arr.box.flags.writeable:
         arr.box[...] = arr.box * 2
-    cats = arr.get_annotation_categories()
+    cats = [c for c in arr.get_annotation_categories() if arr.get_annotation(c).flags.writeable]
     for c in cats:
         a = arr.get_annotation(c)
         backup[c] = a.copy()
@@ -1387,8 +1725,9 @@ def _alias_check(f, arr, fmt):
         elif a.dtype.kind == "U" and a.dtype.itemsize >= 4:
             a[...] = "~"
     after = snapshot()
-    arr.coord[...] = backup["coord"]
-    if arr.box is not None:
+    if move_coord:
+        arr.coord[...] = backup["coord"]
+    if arr.box is not None and arr.box.flags.writeable:
         arr.box[...] = backup["box"]
     for c in cats:
         arr.get_annotation(c)[...] = backup[c]
@@ -1513,7 +1852,8 @@ def _compare(spec, arr, back, fmt, want_stack, tag):
             continue
         a, b = arr.get_annotation(cat), back.get_annotation(cat)
         if a.dtype.kind == "f":
-            same = np.array_equal(a, b) if fmt != "cbcif" else np.allclose(a, b, rtol=2e-6, atol=0)
+            b = b.astype(a.dtype)          # a float16/float32 annotation is compared at its own precision
+            same = np.array_equal(a, b) if fmt != "cbcif" else np.allclose(a, b, rtol=max(2e-6, float(np.finfo(a.dtype).eps) * 2), atol=0)
         elif cat in (spec.get("extra") or {}):
             a, b = a.astype(str), b.astype(str)      # extra fields are read back as strings
             same = np.array_equal(a, b)
@@ -1742,7 +2082,24 @@ def _oracle_models(case):
 
 
 def oracle(case):
+    """Runs in a forked child: a crash or hang of the code under test (bonds.pyx, encoding.pyx) is a verdict with
+    this case as the failing input, never a dead check."""
+    from common import sandbox
+    _setup()
+    res = sandbox.run_forked(_oracle_inner, case, timeout=120)
+    if res[0] == "ok":
+        return res[1]
+    if res[0] == "err":
+        return [(f"oracle-crash/{res[1]}", f"oracle raised {res[1]}: {res[2]}")]
+    if res[0] == "crash":
+        return [(f"C04/crash/signal{res[1]}", f"the process died (signal {res[1]}) while writing/reading this case")]
+    return [("C04/crash/timeout", "writing/reading this case did not finish within 120 s")]
+
+
+def _oracle_inner(case):
     k = case.get("kind")
+    if k == "api":
+        return _oracle_api(case)
     if k in ("struct", "struct-limit", "struct-strings", "malformed"):
         return _oracle_struct(case)
     if k == "altloc":
